@@ -1049,4 +1049,31 @@ theorem odeRhs_spectator (reg : Registry α) (hreg : RegistryWF reg) (ks : List 
   rw [odeRhs_spec reg hreg ks rxns y ns hk hy, this]
   rfl
 
+/-! ### parameter keys -/
+
+theorem getDerivedUnit_unknown (reg : Registry α) (hreg : RegistryWF reg) (key : String)
+    (h1 : Gen.Units.derivedTable.lookup key = none) (h2 : keyIndex? key = none) :
+    getDerivedUnit (some reg) key = .error .keyError := by
+  obtain ⟨ds, hds, hspec⟩ := derivedAll_spec reg hreg Gen.Units.derivedTable derivedTable_wf
+  have hnone : ds.lookup key = none := by
+    have := (hspec key).1
+    rw [h1] at this
+    simpa using this
+  simp [getDerivedUnit, hds, hnone, h2]
+
+/-- `_get_derived_unit` for a parameter key: a derived key (`doserate`, `density`, …) gives the registry's unit of that
+    dimension; a key that is neither derived nor a base key (`doserate_alpha`) is looked up again without its last word -/
+theorem getDerivedUnitFallback_spec (reg : Registry α) (hreg : RegistryWF reg) (key : String) :
+    (∀ e, Gen.Units.derivedTable.lookup key = some e →
+      ∃ U, getDerivedUnitFallback reg key = .ok U ∧ U.WF ∧ U.dims = e ∧ U.si = regProd reg e ∧ U.si ≠ 0) ∧
+    (Gen.Units.derivedTable.lookup key = none → keyIndex? key = none →
+      getDerivedUnitFallback reg key = getDerivedUnit (some reg) (dropLastWord key)) := by
+  constructor
+  · intro e he
+    obtain ⟨U, h1, h2⟩ := getDerivedUnit_derived reg hreg key e he
+    exact ⟨U, by simp [getDerivedUnitFallback, h1], h2⟩
+  · intro h1 h2
+    simp [getDerivedUnitFallback, getDerivedUnit_unknown reg hreg key h1 h2]
+
+
 end ChemModel.KinUnits
